@@ -171,15 +171,16 @@ def secOf (k : KeyObj) (compressed : Bool) : Except Err Bytes := do
 
 /-! ## text forms (`as_text`, `wif`, `hwif`, `sec_as_hex`) -/
 
-def b58Text (env : Env) (net : Network) (pfx : Option Bytes) (blob : Bytes) : Except Err String :=
-  if !net.b58DoubleSha then .error .unsupported   -- Groestl-hashed Base58 (the closure raises ImportError here)
-  else match pfx with
-    | none => .error .typeError                   -- `None + blob`
-    | some p => .ok (env.b58cEnc (p ++ blob))
+/-- the `wif_for_blob` / `bipNN_as_string` closures: Base58Check of prefix + blob under the closure's own checksum hash `k`
+(`Network.hashWif`, `hashBip32`, …: double SHA-256, or Groestl where a Groestlcoin symbol file replaced the closure) -/
+def b58Text (env : Env) (k : HashKind) (pfx : Option Bytes) (blob : Bytes) : Except Err String :=
+  match pfx with
+  | none => .error .typeError                   -- `None + blob`
+  | some p => .ok (env.b58cEnc k (p ++ blob))
 
 /-- `Key.wif()` of a private key -/
 def wifText (env : Env) (net : Network) (se : Nat) (compressed : Bool) : Except Err String :=
-  b58Text env net net.outWif (beBytes se 32 ++ (if compressed then [1] else []))
+  b58Text env net.hashWif net.outWif (beBytes se 32 ++ (if compressed then [1] else []))
 
 /-- `Key.sec_as_hex()` -/
 def secText (net : Network) (k : KeyObj) : Except Err String :=
@@ -213,10 +214,17 @@ def nodeOutPrefix (net : Network) (kind : Nat) (asPrivate : Bool) : Option Bytes
   | 84, true => net.outBip84Prv | 84, false => net.outBip84Pub
   | _, _ => none
 
+/-- the checksum hash of the closure `hwif` goes through (`bip32_as_string` / `bip49_as_string` / `bip84_as_string`) -/
+def nodeOutHash (net : Network) (kind : Nat) : HashKind :=
+  match kind with
+  | 49 => net.hashBip49
+  | 84 => net.hashBip84
+  | _ => net.hashBip32
+
 /-- `node.hwif(as_private)` -/
 def hwif (env : Env) (net : Network) (n : NodeObj) (asPrivate : Bool) : Except Err String := do
   let blob ← nodeSerialize n asPrivate
-  b58Text env net (nodeOutPrefix net n.kind asPrivate) blob
+  b58Text env (nodeOutHash net n.kind) (nodeOutPrefix net n.kind asPrivate) blob
 
 /-! ## the parsers (`ParseAPI`) -/
 
